@@ -11,7 +11,7 @@ if [ ${#patches[@]} -eq 0 ]; then patches=(selftest/mutants/*.patch seeded/*/pat
 for p in "${patches[@]}"; do
   [ -f "$p" ] || continue
   case "$p" in
-    */patch.diff) name=$(basename "$(dirname "$p")"); prop=$(jq -r .property "$(dirname "$p")/meta.json") ;;
+    */patch.diff) name=$(basename "$(dirname "$p")"); prop=${PROP_OVERRIDE:-$(jq -r .property "$(dirname "$p")/meta.json")} ;;
     *) name=$(basename "$p" .patch); prop=${name%%-*} ;;
   esac
   W=$(mktemp -d /var/tmp/sens.XXXXXX); rmdir "$W"
